@@ -9,7 +9,7 @@
      lazy_par  : MODEL of the implementation - every map / accept stage runs through the MapAuto / FilterAuto protocol
                  of Conc/ParMap.v (k items on the caller, the timing decision, the worker count, a schedule of feeder /
                  workers / collector) in front of a consumer that stops at a moment `lp_stop` chosen per stage;
-                 a closure stage without workers of its own (number) runs inside the yield of its upstream, i.e. on
+                 a closure stage without workers of its own (LScan; number) runs inside the yield of its upstream, i.e. on
                  the collector goroutine of the parallel stage in front of it, and stops when its consumer stops.
                  The source of a stage is what its upstream has delivered (the feeder of a downstream MapAuto runs
                  inside the upstream collector's yield).  The moments at which the stages' consumers stop are INPUTS
@@ -26,22 +26,43 @@ Local Open Scope Z_scope.
 Inductive lstage :=
 | LMap (p : sp)        (* map(x -> h(lin1 a b x)): iterator.MapAuto *)
 | LAccept (p : sp)     (* accept(x -> h(lin1 a b x) mod k != 0): iterator.FilterAuto *)
-| LNumber (p : sp).    (* number((i,e) -> h(lin2 a b i e)): value/list.go Number, a closure stage on the calling goroutine.
-                          Deviation: behind an ERROR element of its input the library does not advance i (n++ sits inside
-                          `if err == nil`), the model counts positions.  Elements behind the first error of a stream never
-                          reach a verdict (every consumer stops at the first error; lazy_rel / scan only look at the values
-                          before it and at whether an error exists), so the difference is not observable here. *)
+| LScan (init : list Z) (step : list Z -> Z -> list Z * list (res Z)).  (* a closure stage on the calling goroutine, see lstep below *)
 
+(* a closure stage that runs on the goroutine calling its yield: a state (a list of integers), a step from state and
+   element to the new state and the elements it emits (each a value or the error of a failing closure call); an error
+   element of the input is passed on and leaves the state alone.  list.go Number is exactly of this form (number_step:
+   the index advances for values only).  iterator.Combine / IirMap / the fsm stage are of this form up to what they do
+   BEHIND an error element (they overwrite their `last` with the zero value of the failed element) - elements behind the
+   first error never reach a verdict; they are not instantiated here.  A stage that DROPS errors of its input (top, skip)
+   is not of this form, and lazy_rel is not preserved by it. *)
+Definition lstep := list Z -> Z -> list Z * list (res Z).
+
+Fixpoint scan_stage (step : lstep) (st : list Z) (items : list (res Z)) : list (res Z) :=
+  match items with
+  | [] => []
+  | RErr :: r => RErr :: scan_stage step st r
+  | ROk x :: r => let (st', outs) := step st x in outs ++ scan_stage step st' r
+  end.
+
+(* what a consumer that stops when `stopf` says so is handed of l, and whether it has stopped *)
+Fixpoint take_until (stopf : list (res Z) -> bool) (seen l : list (res Z)) : list (res Z) * bool :=
+  match l with
+  | [] => (seen, false)
+  | x :: r => if stopf (seen ++ [x]) then (seen ++ [x], true) else take_until stopf (seen ++ [x]) r
+  end.
+
+(* number exactly as list.go does it, as a closure stage: state [n] *)
+Definition number_step (p : sp) : lstep :=
+  fun st x => let n := hd 0 st in ([n + 1], [to_res (hf (pfail p) (lin2 (pa p) (pb p) n x))]).
 Definition lmap_fn (p : sp) (_ : nat) (x : Z) : res Z := to_res (map_fn p x).
-Definition lnum_fn (p : sp) (i : nat) (x : Z) : res Z := to_res (hf (pfail p) (lin2 (pa p) (pb p) (Z.of_nat i) x)).
 Definition laccept_fn (p : sp) (x : Z) : res bool := to_res (accept_fn p x).
 
 (* ---- specification side: strictly sequential evaluation ---------------------------------------------- *)
 Definition lstage_seq (s : lstage) (items : list (res Z)) : list (res Z) :=
   match s with
   | LMap p => fst (seq_map (lmap_fn p) log_yield 0 items [])
-  | LNumber p => fst (seq_map (lnum_fn p) log_yield 0 items [])
   | LAccept p => seq_filter (laccept_fn p) items
+  | LScan init step => scan_stage step init items
   end.
 
 Fixpoint lazy_seq (stages : list lstage) (items : list (res Z)) : list (res Z) :=
@@ -62,7 +83,7 @@ Definition lstage_par (lp : lparams) (s : lstage) (items : list (res Z)) : list 
                                    (pp_k pp) (pp_decide pp) (pp_nw pp) (pp_sched pp) items [])
   | LAccept p => ma_cst (map_auto_run (filter_mapper (laccept_fn p)) (filter_stop_yield (lp_stop lp))
                                       (pp_k pp) (pp_decide pp) (pp_nw pp) (pp_sched pp) items [])
-  | LNumber p => fst (seq_map (lnum_fn p) (stop_yield (lp_stop lp)) 0 items [])
+  | LScan init step => fst (take_until (lp_stop lp) [] (scan_stage step init items))
   end.
 
 (* an assignment gives every stage (by position; it may depend on the traversal, i.e. on the stage's input) its inputs *)
@@ -97,7 +118,7 @@ Definition lstage_fin (lp : lparams) (s : lstage) (items : list (res Z)) : list 
                                 (pp_k pp) (pp_decide pp) (pp_nw pp) (pp_sched pp) items [] in (ma_cst m, ma_closed m)
   | LAccept p => let m := ma_final (filter_mapper (laccept_fn p)) (filter_stop_yield (lp_stop lp))
                                    (pp_k pp) (pp_decide pp) (pp_nw pp) (pp_sched pp) items [] in (ma_cst m, ma_closed m)
-  | LNumber p => let r := seq_map (lnum_fn p) (stop_yield (lp_stop lp)) 0 items [] in (fst r, negb (snd r))
+  | LScan init step => take_until (lp_stop lp) [] (scan_stage step init items)
   end.
 
 (* schedule inputs per stage position and traversal *)
